@@ -1,17 +1,28 @@
 // Native replay of tokeniser counterexamples (b_tokenize_*, b_nested_*): the verifier's input bytes and delimiter bytes are fed to the real
 // StringTokenizer / NestedStringTokenizer and the result is compared with the character-level reference of the harness.
 // The job name carries the options: b_tokenize_len<L>_d<D>_solid<S>_empty<E>, b_nested_len<L>_d<D>_solid<S>.
-// SOURCES: Bpp/Exceptions.cpp Bpp/Text/TextTools.cpp Bpp/Text/StringTokenizer.cpp Bpp/Text/NestedStringTokenizer.cpp
+// b_glob_p<P>_n<N>: ApplicationTools::matchingParameters and ParameterList::getMatchingParameterNames against a recursive glob matcher.
+// SOURCES: @all
 #include <Bpp/Text/StringTokenizer.h>
 #include <Bpp/Text/NestedStringTokenizer.h>
 #include <Bpp/Exceptions.h>
+#include <Bpp/App/ApplicationTools.h>
+#include <Bpp/Numeric/ParameterList.h>
 #include "adapters/args.h"
 #include <vector>
 #include <cstdio>
 using namespace bpp; using namespace std;
 static string show(const string& s) { return "\"" + s + "\""; }
+static bool glob(const string& p, size_t i, const string& n, size_t j) { if (i == p.size()) return j == n.size(); if (p[i] == '*') return glob(p, i + 1, n, j) || (j < n.size() && glob(p, i, n, j + 1)); return j < n.size() && p[i] == n[j] && glob(p, i + 1, n, j + 1); }
 int main(int argc, char** argv) {
   Args a(argc, argv); string fn = a.s("fn"); int L = 0, D = 0, S = 0, E = 0; bool nested = fn.compare(0, 8, "b_nested") == 0;
+  if (fn.compare(0, 6, "b_glob") == 0) { int P = 0, N = 0; if (sscanf(fn.c_str(), "b_glob_p%d_n%d", &P, &N) != 2) { cout << "cannot read the sizes from " << fn << endl; return 3; }
+    string p, n; for (int i = 0; i < P; ++i) p += (char)a.u("in_p_" + to_string(i)); for (int i = 0; i < N; ++i) n += (char)a.u("in_n_" + to_string(i));
+    vector<string> names(1, n); vector<string> r = ApplicationTools::matchingParameters(p, names); bool ref = glob(p, 0, n, 0);
+    cout << "matchingParameters(" << show(p) << ", {" << show(n) << "}) returns " << r.size() << " name(s); glob says " << (ref ? "match" : "no match") << endl;
+    CHECK_POST(r.size() == (ref ? 1u : 0u));
+    if (N > 0) { ParameterList pl; pl.addParameter(Parameter(n, 0.)); vector<string> r2 = pl.getMatchingParameterNames(p); cout << "getMatchingParameterNames returns " << r2.size() << " name(s)" << endl; CHECK_POST(r2.size() == (ref ? 1u : 0u)); }
+    return verif_failed; }
   if (nested) { if (sscanf(fn.c_str(), "b_nested_len%d_d%d_solid%d", &L, &D, &S) != 3) { cout << "cannot read the options from " << fn << endl; return 3; } }
   else if (sscanf(fn.c_str(), "b_tokenize_len%d_d%d_solid%d_empty%d", &L, &D, &S, &E) != 4) { cout << "cannot read the options from " << fn << endl; return 3; }
   string s, d; for (int i = 0; i < L; ++i) s += (char)a.u("in_s_" + to_string(i)); for (int i = 0; i < D; ++i) d += (char)a.u("in_d_" + to_string(i));
